@@ -154,6 +154,27 @@ pub fn run(run: &mut Run) {
         if e.results != want_e || e2.results != want_e || e.total_result != Error(total) || e2.total_result != Error(total) {
             bad(run, "results-error", format!("TestResults<Error> from {v:?}: results {:?}, total {:?}", e.results, e.total_result));
         }
+        // copies: clone, and clone_from onto a value that held something else before
+        {
+            let other: TestResults<Score<i64>> = TestResults::from(vec![7, -9, 11]);
+            let c1 = s.clone();
+            let mut c2 = other.clone();
+            c2.clone_from(&s);
+            let mut c3 = vec![other.clone(), other.clone()];
+            c3.clone_from(&vec![s.clone(), s.clone()]);
+            for (how, c) in [("clone", &c1), ("clone_from", &c2), ("Vec::clone_from", &c3[1])] {
+                n += 1;
+                if c.results != want_s || c.total_result != Score(total) || c.cmp(&s) != Ordering::Equal || *c != s {
+                    bad(run, "results-copy", format!("TestResults<Score> from {v:?} copied by {how}: results {:?}, total {:?}", c.results, c.total_result));
+                }
+            }
+            let ea: EcIndividual<u8, TestResults<Score<i64>>> = EcIndividual::new(3, s.clone());
+            let mut eb: EcIndividual<u8, TestResults<Score<i64>>> = EcIndividual::new(9, other.clone());
+            eb.clone_from(&ea);
+            if eb != ea || eb.test_results.total_result != Score(total) || eb.cmp(&ea) != Ordering::Equal {
+                bad(run, "individual-copy", format!("EcIndividual with results {v:?} copied by clone_from: {:?}", eb.test_results.total_result));
+            }
+        }
         built_s.push((v.clone(), s));
         built_e.push((v.clone(), e));
     }
